@@ -1,6 +1,6 @@
 (* Wire entry points of the C10 model (hierarchical bases, hierarchisation, interpolation, checkers). *)
 From Coq Require Import ZArith List QArith Qcanon Bool Arith.
-From SG Require Import Base.Sx Base.QcUtil Model.Basis Model.BasisPieces.
+From SG Require Import Base.Sx Base.QcUtil Model.Basis Model.BasisPieces Model.BasisTree.
 Import ListNotations.
 Open Scope Z_scope.
 
@@ -212,6 +212,26 @@ Definition entry_C10 (sub : Z) (a : sx) : sx :=
       end
     | None, _, _, _ => sx_err 2
     | _, _, _, _ => sx_err 3
+    end
+  (* 8: dimspec of an unmodified Lagrange grid -> (the lists are a refinement tree, the tree recursion of Model/BasisTree.v
+        builds exactly the system of the level loop, the structural checker accepts it) - the runtime tie of the theorem
+        "every refinement tree is accepted" (Proofs/BasisTreeP.tree_system_accepted) to the code-shaped list model *)
+  | 8, Lv [Zv kind; Zv p; bnd; md; a; b; pts; levs] =>
+    match get_bool bnd, get_bool md, get_Qc a, get_Qc b, get_LQc pts, get_Ln levs with
+    | Some bnd, Some false, Some a, Some b, Some pts, Some levs =>
+      if (kind =? 0)%Z then
+        let '(c1, c2, c3) := tree_check (zn p) bnd a b pts levs in Lv [sx_bool c1; sx_bool c2; sx_bool c3]
+      else sx_err 8
+    | _, _, _, _, _, _ => sx_err 8
+    end
+  | 8, Lv [Zv kind; Zv p; bnd; md; a; b; s; e; Zv L] =>
+    match get_bool md, get_Qc s, get_Qc e with
+    | Some false, Some s, Some e =>
+      if (kind =? 2)%Z then
+        let '(c1, c2, c3) := tree_check (zn p) true s e (regular_points s e (zn L)) (regular_levels (zn L)) in
+        Lv [sx_bool c1; sx_bool c2; sx_bool c3]
+      else sx_err 8
+    | _, _, _ => sx_err 8
     end
   | _, _ => sx_err 0
   end.
